@@ -309,8 +309,14 @@ def rows_with_units(rep):
         def serialize(self, data):
             return 'tag<%d>' % data
 
+    class QTagSerializer(Serializer):
+        def serialize(self, data):
+            return 'qtag<%.1f %s>' % (data.magnitude, data.units)
+
     if 'TagSerializer' not in serializer_registry.registry:
         serializer_registry.register('TagSerializer', TagSerializer())
+    if 'QTagSerializer' not in serializer_registry.registry:
+        serializer_registry.register('QTagSerializer', QTagSerializer())
 
     class Q(Process):
         defaults = {'time_step': 1}
@@ -325,13 +331,17 @@ def rows_with_units(rep):
                          '_emit': True},
                 'arr': {'_default': np.array([1, 2]), '_emit': True},
                 'tagged': {'_default': 0, '_serializer': 'TagSerializer', '_emit': True},
+                # a custom serializer on a variable whose default carries units
+                'qtag': {'_default': 1.5 * units.mg, '_serializer': 'QTagSerializer',
+                         '_emit': True},
                 'hidden': {'_default': 5 * units.g, '_emit': False}}}
 
         def next_update(self, timestep, states):
             k = int(round(states['m']['tagged'])) + 1
             return {'m': {'mass': 1 * units.g, 'conc': 0.5 * units.mM,
                           'many': [k * units.g, 2 * k * units.mg],
-                          'tags': {k}, 'arr': np.array([1, 1]), 'tagged': 1}}
+                          'tags': {k}, 'arr': np.array([1, 1]), 'tagged': 1,
+                          'qtag': 0.5 * units.mg}}
 
     rep.evaluations += 1
     eng = Engine(processes={'q': Q()}, topology={'q': {'m': ('m',)}},
@@ -347,7 +357,7 @@ def rows_with_units(rep):
                          else [(1000 * k) * units.mg, 2 * k * units.mg]),
                 'tags': (set() if k == 0 else {k}),
                 'arr': np.array([1 + k, 2 + k]),
-                'tagged': k}
+                'tagged': k, 'qtag': (1.5 + 0.5 * k) * units.mg}
     for k in range(4):
         t = float(k)
         row = rows.get(t)
@@ -365,6 +375,8 @@ def rows_with_units(rep):
         for var, val in exp.items():
             if var == 'tagged':
                 want = 'tag<%d>' % val
+            elif var == 'qtag':
+                want = 'qtag<%.1f milligram>' % val.magnitude
             elif var == 'tags':
                 want = sorted(val)
                 got[var] = sorted(got[var]) if isinstance(got[var], list) else got[var]
